@@ -411,3 +411,75 @@ int openat64(int dirfd, const char *path, int flags, ...) {
   if (flags & (O_CREAT | O_TMPFILE)) { va_list ap; va_start(ap, flags); mode = va_arg(ap, mode_t); va_end(ap); }
   return open_common("openat64", dirfd, path, flags | O_LARGEFILE, mode);
 }
+
+/* ------------------------------------------------------------------ lock contention
+ * "Somebody else holds the write lock": the next n attempts to take the WAL write lock
+ * (fcntl F_SETLK / F_OFD_SETLK, F_WRLCK, byte 120 of the "-shm" file) fail with EAGAIN, as
+ * they do while another connection or process is inside a write transaction; after that
+ * the lock is free again.  The sleep (nanosleep / usleep) that follows a refused attempt on
+ * the same thread returns at once: SQLite's busy handler counts its waiting time from the
+ * delays it asked for, not from the clock, so a contention period of many seconds costs no
+ * wall-clock time.
+ */
+static __thread int tl_lock_refused;
+static volatile long lock_busy_left;
+static volatile long lock_busy_seen;
+static volatile int lock_busy_armed;
+
+void tcss_lock_busy(long n) { lock_busy_left = n; lock_busy_seen = 0; lock_busy_armed = n > 0; }
+long tcss_lock_busy_seen(void) { return lock_busy_seen; }
+
+static int is_shm_fd(int fd) {
+  char link[64], path[4096];
+  snprintf(link, sizeof link, "/proc/self/fd/%d", fd);
+  ssize_t n = readlink(link, path, sizeof(path) - 1);
+  if (n <= 4) return 0;
+  path[n] = 0;
+  return strstr(path, DBNAME "-shm") != NULL;
+}
+
+static int lock_gate(int fd, int cmd, void *arg) {
+  if (!lock_busy_armed || !arg) return 0;
+  if (cmd != F_SETLK
+#ifdef F_OFD_SETLK
+      && cmd != F_OFD_SETLK
+#endif
+  ) return 0;
+  struct flock *fl = arg;
+  if (fl->l_type != F_WRLCK || fl->l_start != 120 || !is_shm_fd(fd)) return 0;
+  pthread_mutex_lock(&io_mu);
+  int hit = 0;
+  if (lock_busy_left > 0) { lock_busy_left--; lock_busy_seen++; hit = 1; tl_lock_refused = 1; }
+  pthread_mutex_unlock(&io_mu);
+  return hit;
+}
+
+int fcntl(int fd, int cmd, ...) {
+  static int (*real)(int, int, ...);
+  if (!real) real = dlsym(RTLD_NEXT, "fcntl");
+  va_list ap; va_start(ap, cmd); void *arg = va_arg(ap, void *); va_end(ap);
+  if (lock_gate(fd, cmd, arg)) { errno = EAGAIN; return -1; }
+  return real(fd, cmd, arg);
+}
+
+int fcntl64(int fd, int cmd, ...) {
+  static int (*real)(int, int, ...);
+  if (!real) { real = dlsym(RTLD_NEXT, "fcntl64"); if (!real) real = dlsym(RTLD_NEXT, "fcntl"); }
+  va_list ap; va_start(ap, cmd); void *arg = va_arg(ap, void *); va_end(ap);
+  if (lock_gate(fd, cmd, arg)) { errno = EAGAIN; return -1; }
+  return real(fd, cmd, arg);
+}
+
+int usleep(useconds_t us) {
+  static int (*real)(useconds_t);
+  if (!real) real = dlsym(RTLD_NEXT, "usleep");
+  if (tl_lock_refused) { tl_lock_refused = 0; return 0; }
+  return real(us);
+}
+
+int nanosleep(const struct timespec *req, struct timespec *rem) {
+  static int (*real)(const struct timespec *, struct timespec *);
+  if (!real) real = dlsym(RTLD_NEXT, "nanosleep");
+  if (tl_lock_refused) { tl_lock_refused = 0; return 0; }
+  return real(req, rem);
+}
